@@ -29,7 +29,7 @@ ASSUMPTIONS = [
     "RouterModel (vf/models/router.py) is written from the statement; recipients that already closed their "
     "socket but whose departure the manager has not serviced yet are don't-care",
 ]
-REQUIRE = {"deliveries_compared": 200, "negative_checks": 200, "pubs": 100}
+REQUIRE = {"api_deliveries_compared": 300, "deliveries_compared": 200, "negative_checks": 200, "pubs": 100}
 CASE_TIMEOUT = 120
 
 TYPE_POOL = [0, 1, 8, 33, 62, 80, 99, 100, 1234, 5000, 9998, 9999, 10000, 10001, 123456, -1, -7, -10001,
@@ -155,10 +155,85 @@ def gen_cases(tier, seed):
         for i in range(40):
             cases.append({"kind": "seq", "seed": i, "tc": bool(i % 2), "loud": True,
                           "steps": gen_sequence(random.Random(f"loud{seed}-{i}"), tier)})
+    for i in range(24 if tier == "quick" else 1500):
+        cases.append({"kind": "api", "seed": rng.getrandbits(32), "tc": i % 3 == 2, "steps": ["api", i]})
     return cases
 
 
+def run_api(case):
+    """publications made through the real Client API (send_signal / send_message with a destination module or host):
+    what the subscribers' sockets show must be what the caller named, and the recipients those the destination implies"""
+    import time as _t
+    import warnings
+    from pyrtma.client import Client
+    import pyrtma.core_defs as cd
+    warnings.simplefilter("ignore")
+    tc = bool(case.get("tc"))
+    rig = ManagerRig(stepped=False, timecode=tc)
+    res = {"violations": [], "counters": {}, "sets": {}, "sig": sig_of(["api", case["seed"], tc]), "nontrivial": True}
+    V, C = res["violations"], res["counters"]
+    rng = random.Random(case["seed"])
+    SIG, DAT, FENCE = 1234, cd.MDF_FAIL_SUBSCRIBE.type_id, 4321
+    c = None
+    try:
+        recv = {}
+        for label, mid, logger, suball in (("r12", 12, 0, False), ("r3", 3, 0, False), ("rall", 40, 0, True), ("rlog", 41, 1, True)):
+            wc = rig.client(label)
+            wc.send_frame(W.MT_CONNECT_V2, W.p_connect_v2(logger, 0, 0, mid, 1, label.encode()), src_mod=mid)
+            wc.send_frame(W.MT_CONNECT, W.p_connect(logger, 0), src_mod=mid)
+            for t in ([ALL] if suball else [SIG, DAT, FENCE]):
+                wc.send_frame(W.MT_SUBSCRIBE, W.p_sub(t), src_mod=mid)
+            recv[label] = (wc, mid, bool(logger), 2 + (1 if suball else 3))
+        end = _t.time() + 10
+        for label, (wc, mid, lg, nack) in recv.items():
+            while _t.time() < end and sum(1 for f in wc.frames()[0] if f.msg_type == W.MT_ACK and f.dest_mod == mid) < nack - 1:
+                _t.sleep(0.002)
+        c = Client(module_id=30, timecode=tc)
+        c.connect(f"127.0.0.1:{rig.addr[1]}")
+        calls = []
+        for _ in range(rng.randint(6, 14)):
+            dm, dh = rng.choice([(0, 0), (12, 0), (3, 0), (0, 2), (0, 5), (12, 1), (40, 0), (41, 0), (77, 0), (5, 0), (0, 1)])
+            if rng.random() < 0.5:
+                c.send_signal(SIG, dest_mod_id=dm, dest_host_id=dh)
+                calls.append((SIG, dm, dh, 0))
+            else:
+                d = cd.MDF_FAIL_SUBSCRIBE()
+                d.mod_id, d.msg_type = rng.randint(1, 99), rng.randint(1, 9999)
+                c.send_message(d, dest_mod_id=dm, dest_host_id=dh)
+                calls.append((DAT, dm, dh, d.size))
+        c.send_signal(FENCE)
+        C["api_publications"] = len(calls)
+        for label, (wc, mid, lg, _) in recv.items():
+            end = _t.time() + 10
+            while _t.time() < end and not any(f.msg_type == FENCE for f in wc.frames()[0]):
+                _t.sleep(0.002)
+            fs = [f for f in wc.frames()[0] if f.msg_type in (SIG, DAT) and f.src_mod == 30]
+            if not any(f.msg_type == FENCE for f in wc.frames()[0]):
+                res["inconclusive"] = f"fence signal did not reach {label}"
+                return res
+            want = [(t, dm, dh, n) for t, dm, dh, n in calls if dm == 0 or dm == mid or lg]
+            got = [(f.msg_type, f.dest_mod, f.dest_host, f.nbytes) for f in fs]
+            C["api_deliveries_compared"] = C.get("api_deliveries_compared", 0) + len(want)
+            if got != want:
+                V.append({"mech": "api_publication_misrouted_or_relabelled",
+                          "detail": f"{label} (mod {mid}, logger={lg}): Client.send_signal/send_message calls (type, dest_mod_id, dest_host_id, bytes) {calls}; "
+                                    f"expected at this subscriber {want}, its socket shows {got}"})
+        return res
+    finally:
+        try:
+            if c is not None:
+                c._sock.close()
+                c._connected = False
+                for h in list(c.logger.logger.handlers):
+                    c.logger.logger.removeHandler(h)
+        except Exception:
+            pass
+        rig.close()
+
+
 def run_case(case, tier):
+    if case.get("kind") == "api":
+        return run_api(case)
     rig = ManagerRig(stepped=True, timecode=bool(case.get("tc")), loud=bool(case.get("loud")))
     try:
         sc = Scenario(rig, case.get("seed", 0))
